@@ -21,20 +21,28 @@ Definition mlen (yoe mp : Z) : Z := month_len (yoe + c_of_mp mp) (m_of_mp mp).
 Definition era_day_ok (yoe mp d : Z) : bool :=
   let doe := doe_of yoe mp d in
   (0 <=? doe) && (doe <=? 146096) && eq3 (civil_doe doe) (yoe, mp, d).
-Definition era_ok : bool :=
-  forallb (fun yoe => forallb (fun mp => forallb (era_day_ok yoe mp) (zrange 1 (mlen yoe mp))) (zrange 0 11)) (zrange 0 399).
+(* nested sweep over a <- 0..a_hi, b <- 0..b_hi, c <- 1..hi a b, and its generic lifting lemma
+   (kept generic in f so that using it never re-evaluates the sweep) *)
+Definition sweep3 (f : Z -> Z -> Z -> bool) (hi : Z -> Z -> Z) (a_lo a_hi b_lo b_hi : Z) : bool :=
+  forallb (fun a => forallb (fun b => forallb (f a b) (zrange 1 (hi a b))) (zrange b_lo b_hi)) (zrange a_lo a_hi).
 
-Lemma era_sweep : era_ok = true.
+Lemma sweep3_spec f hi a_lo a_hi b_lo b_hi : sweep3 f hi a_lo a_hi b_lo b_hi = true ->
+  forall a b c, a_lo <= a <= a_hi -> b_lo <= b <= b_hi -> 1 <= c <= hi a b -> f a b c = true.
+Proof.
+  intros S a b c Ha Hb Hc. unfold sweep3 in S.
+  pose proof (forallb_zrange _ _ _ S a Ha) as S1. cbv beta in S1.
+  pose proof (forallb_zrange _ _ _ S1 b Hb) as S2. cbv beta in S2.
+  exact (forallb_zrange _ _ _ S2 c Hc).
+Qed.
+
+Lemma era_sweep : sweep3 era_day_ok mlen 0 399 0 11 = true.
 Proof. vm_compute. reflexivity. Qed.
 
 Lemma era_day : forall yoe mp d, 0 <= yoe <= 399 -> 0 <= mp <= 11 -> 1 <= d <= mlen yoe mp ->
   0 <= doe_of yoe mp d <= 146096 /\ civil_doe (doe_of yoe mp d) = (yoe, mp, d).
 Proof.
   intros yoe mp d Hy Hm Hd.
-  pose proof era_sweep as S. unfold era_ok in S.
-  pose proof (forallb_zrange _ _ _ S yoe Hy) as S1. cbv beta in S1.
-  pose proof (forallb_zrange _ _ _ S1 mp Hm) as S2. cbv beta in S2.
-  pose proof (forallb_zrange _ _ _ S2 d Hd) as S3.
+  pose proof (sweep3_spec _ _ _ _ _ _ era_sweep yoe mp d Hy Hm Hd) as S3.
   unfold era_day_ok in S3. rewrite !andb_true_iff, !Z.leb_le in S3. destruct S3 as [[B1 B2] E].
   split; [lia|apply eq3_eq; exact E].
 Qed.
